@@ -1,5 +1,6 @@
 import Driver.Common
 import Driver.C18
+import Driver.Life
 import Driver.C09
 import Driver.C08
 import Driver.Registry
@@ -22,6 +23,10 @@ def main (args : List String) : IO UInt32 := do
     let impl ← Driver.readLines implPath
     let t ← match model with
       | "c18" => Driver.C18.run ops impl
+      | "life-c01" => Driver.LifeDrv.run .c01 ops impl
+      | "life-c03" => Driver.LifeDrv.run .c03 ops impl
+      | "life-c04" => Driver.LifeDrv.run .c04 ops impl
+      | "life-residue" => Driver.LifeDrv.run .residue ops impl
       | "c09" => Driver.C09.run ops impl
       | "c08" => Driver.C08.run ops impl
       | "registry" => Driver.Registry.run ops impl
